@@ -105,7 +105,8 @@ async fn scenario(ctx: &Ctx, rng: &mut Rng, epmd: &net::EpmdTable, id: usize, sc
         // collect the requests
         let mut reqs: Vec<Request> = Vec::new();
         let deadline = Instant::now() + Duration::from_millis(100);
-        while reqs.len() < callers {
+        let expected_requests = callers + 2 + callers.min(6);
+        while reqs.len() < expected_requests {
             let left = deadline.saturating_duration_since(Instant::now()).max(Duration::from_millis(20));
             match tokio::time::timeout(left, peer.read_frame4()).await {
                 Ok(Ok(f)) => {
@@ -218,6 +219,17 @@ async fn scenario(ctx: &Ctx, rng: &mut Rng, epmd: &net::EpmdTable, id: usize, sc
             CallOutcome { uid, result: r.map(|t| val_of(&t)).map_err(|e| e.to_string()), elapsed: t0.elapsed(), timeout: call_timeout }
         }));
     }
+    // calls whose timeout is shorter than the time the request needs to get onto the wire
+    // (they contend for the connection with everybody else): they time out, and must leave nothing
+    let mut tiny = Vec::new();
+    for c in 0..(2 + callers.min(6)) {
+        let node = node.clone();
+        let peer_node = peer_node.clone();
+        let t = [Duration::ZERO, Duration::from_micros(1), Duration::from_micros(200), Duration::from_millis(2)][c % 4];
+        tiny.push(tokio::spawn(async move {
+            let _ = node.rpc_call_raw_with_timeout(&peer_node, "m", "f", vec![OwnedTerm::Integer(-1 - c as i64)], t).await;
+        }));
+    }
     // faults on the sending side, concurrently with the others
     let n2 = node.clone();
     let no_conn = tokio::spawn(async move { n2.rpc_call_raw_with_timeout("nobody@127.0.0.1", "m", "f", vec![], Duration::from_millis(100)).await.map(|_| ()).map_err(|e| e.to_string()) });
@@ -226,6 +238,9 @@ async fn scenario(ctx: &Ctx, rng: &mut Rng, epmd: &net::EpmdTable, id: usize, sc
         let mut outs = Vec::new();
         for h in handles {
             outs.push(h.await);
+        }
+        for h in tiny {
+            let _ = h.await;
         }
         (outs, no_conn.await)
     };
